@@ -227,6 +227,10 @@ func (s *ChunkStorage[T]) VerifyRemoteChunk(c Chunk[T]) (*warp.BitSetSignature, 
 
 	chunkCertInfo, ok := s.pendingChunkMap[c.id]
 	if ok {
+		if chunkCertInfo.Cert == nil {
+			// already stored, but no certificate has been set for it yet
+			return nil, nil
+		}
 		return chunkCertInfo.Cert.Signature, nil
 	}
 	if err := s.verifier.Verify(c); err != nil {
